@@ -223,11 +223,11 @@ var expectedProbes = map[string][]string{
 	"C04": {"producer-stalled-quiescence-observations", "eof-at-cut-point", "suffix-altered-after-cut-point", "cases-proved-by-causality", "cases-with-late-positions", "prefix-runs-compared", "suffix-runs-compared"},
 	"C05": {"eof-before-warm-up", "action-streams-checked", "decorator-warm-up-checked"},
 	"C09": {"calls-alive-at-once", "instance-reused-after-completed-call", "calls-compared-with-fresh-instance", "reports-compared-with-fresh-instance"},
-	"C10": {"read-issued-right-after-append-returned", "reads-compared-with-model", "getsince-boundaries", "backfilling-appends", "pre-existing-empty-file-A", "pre-existing-header-only-A"},
-	"C11": {"file-compared-with-model", "shorter-write-over-longer-file", "permuted-header-documents-read", "json-roundtrips", "fragmented-reads", "append-to-missing-file-rejected"},
-	"C19": {"read-error-fired", "http-transport-error", "http-non-200-status", "unreadable-file:missing", "unreadable-file:directory", "malformed-document", "fragmented-reads", "records-compared-with-reference-decode"},
-	"C12": {"repo-getsince-error", "repo-append-error", "timer-fired", "timer-fired-while-busy", "runs-compared-with-model", "idempotence-runs", "multi-worker-runs"},
-	"C13": {"window-cuts-inside-data", "asset-missing-in-repository", "asset-empty", "multi-worker-runs", "protocol-histories-checked", "data-reports-checked", "html-reports-checked"},
+	"C10": {"read-issued-right-after-append-returned", "reads-compared-with-model", "getsince-boundaries", "backfilling-appends", "pre-existing-empty-file-A", "pre-existing-header-only-A", "fs-write-error", "fs-close-error", "sql-exec-error", "io-error-reported-by-append", "getsince-bound-in-another-zone"},
+	"C11": {"file-compared-with-model", "shorter-write-over-longer-file", "permuted-header-documents-read", "json-roundtrips", "fragmented-reads", "append-to-missing-file-rejected", "fs-write-error", "fs-close-error", "io-error-reported-by-operation"},
+	"C19": {"read-error-fired", "http-transport-error", "http-non-200-status", "unreadable-file:missing", "unreadable-file:directory", "unreadable-file:symlink-to-directory", "malformed-document", "fragmented-reads", "records-compared-with-reference-decode", "fs-read-error"},
+	"C12": {"repo-getsince-error", "repo-append-error", "timer-fired", "timer-fired-while-busy", "runs-compared-with-model", "idempotence-runs", "multi-worker-runs", "dates-in-a-daylight-saving-zone", "target-asset-registered-by-empty-file"},
+	"C13": {"window-cuts-inside-data", "asset-missing-in-repository", "asset-empty", "multi-worker-runs", "protocol-histories-checked", "data-reports-checked", "html-reports-checked", "rankings-checked-on-exact-outcomes", "second-run-on-the-same-backtest-and-report"},
 	"C14": {"reports-rendered", "rows-compared-with-compute-outcome", "buffered-report-input", "step-response-reports-compared"},
 	"C16": {"unequal-eof", "empty-input", "eof-within-parameter-window", "model-compared"},
 }
